@@ -136,6 +136,11 @@ func runClntCase(cs clntCase, dotu bool) (line string, results []callRes) {
 		p.conn.failW = true
 		p.conn.mu.Unlock()
 	}
+	if cs.end == "unmountw" {
+		// the peer has stopped reading: every Write blocks until the connection is closed
+		p.conn.setHoldWrites(true)
+	}
+	unmountHung := false
 	res := make([]callRes, cs.n)
 	var wg sync.WaitGroup
 	done := make([]chan struct{}, cs.n)
@@ -171,7 +176,7 @@ func runClntCase(cs clntCase, dotu bool) (line string, results []callRes) {
 	}
 	// wait until all requests were written (held callers have not written anything)
 	deadline := time.Now().Add(3 * time.Second)
-	for !cs.hold && !cs.holdfirst && !cs.sendhold && cs.end != "writefail" && len(p.requests()) < cs.n && time.Now().Before(deadline) {
+	for !cs.hold && !cs.holdfirst && !cs.sendhold && cs.end != "writefail" && cs.end != "unmountw" && len(p.requests()) < cs.n && time.Now().Before(deadline) {
 		time.Sleep(20 * time.Microsecond)
 	}
 	if cs.hold || cs.sendhold {
@@ -273,12 +278,29 @@ func runClntCase(cs clntCase, dotu bool) (line string, results []callRes) {
 	case "unmount":
 		time.Sleep(200 * time.Microsecond)
 		p.clnt.Unmount()
+	case "unmountw":
+		// Unmount while a request is stuck in the transport's Write: it must go through (it closes the
+		// connection, which is what releases the Write)
+		dl := time.Now().Add(2 * time.Second)
+		for p.conn.writersBlocked() == 0 && time.Now().Before(dl) {
+			time.Sleep(20 * time.Microsecond)
+		}
+		um := make(chan struct{})
+		go func() { p.clnt.Unmount(); close(um) }()
+		select {
+		case <-um:
+		case <-time.After(3 * time.Second):
+			unmountHung = true
+		}
+		if unmountHung {
+			p.conn.setHoldWrites(false)
+		}
 	}
 	if cs.hold || cs.holdfirst {
 		time.Sleep(time.Millisecond) // the receive goroutine is now in its shutdown path
 		close(release)
 	}
-	hang := false
+	hang := unmountHung
 	for i := 0; i < cs.n; i++ {
 		select {
 		case <-done[i]:
@@ -332,7 +354,7 @@ func runClntCase(cs clntCase, dotu bool) (line string, results []callRes) {
 	for _, r := range res {
 		fmt.Fprintf(&sb, " %s:%d", r.class, b2i(r.own))
 	}
-	fmt.Fprintf(&sb, " ; LATE %s ; DISTINCT %d ; HANG %d ; TAGSBACK %d", late, b2i(distinct && (cs.hold || cs.holdfirst || cs.sendhold || cs.end == "writefail" || len(tags) == cs.n)), b2i(hang), b2i(tagsOK || hang))
+	fmt.Fprintf(&sb, " ; LATE %s ; DISTINCT %d ; HANG %d ; TAGSBACK %d", late, b2i(distinct && (cs.hold || cs.holdfirst || cs.sendhold || cs.end == "writefail" || cs.end == "unmountw" || len(tags) == cs.n)), b2i(hang), b2i(tagsOK || hang))
 	fmt.Fprintf(&sb, " ; DISTURBED %d", b2i(disturbed))
 	return sb.String(), res
 }
@@ -411,6 +433,12 @@ func modeClnt(tier string, args []string) {
 			if n > 0 {
 				// only the write direction of the transport fails: nothing was sent, nothing will arrive
 				cs := clntCase{n: n, kinds: kinds, order: ord, cut: 0, end: "writefail"}
+				l, _ := runClntCase(cs, r%2 == 0)
+				emit("%s", l)
+				stat("clnt.fail_cases", 1)
+			}
+			if n > 0 {
+				cs := clntCase{n: n, kinds: kinds, order: ord, cut: 0, end: "unmountw"}
 				l, _ := runClntCase(cs, r%2 == 0)
 				emit("%s", l)
 				stat("clnt.fail_cases", 1)
